@@ -1,4 +1,4 @@
-\* DNS64 over the cache: AAAA NODATA entry + A entry composed by Hit64 (Lease64.tla); every C04 property holds
+\* the model mutant: dns64 does not recognise the cached failure (the mark never reaches it); NeverOverCachedFailure must fail
 CONSTANTS
   Ticks = {1, 2, 5}
   Horizon = 100000
@@ -16,8 +16,8 @@ CONSTANTS
   V6Key = "d6"
   V4Key = "d4"
   NegRule = "rfc2308"
-  FailTTL = 0
-  FailRule = "terminal"
+  FailTTL = 5
+  FailRule = "ignored"
   Routes = {"msg", "wire"}
   Reqs = {1}
   MaxLeases = 1
@@ -32,6 +32,6 @@ CONSTANTS
   Res = {1}
 SPECIFICATION Spec64
 VIEW View64
-INVARIANTS TypeOKA
-PROPERTIES ServedLive TTLShown TTLMonotone ComposedMin LateWriteLoses
+INVARIANTS TypeOK64
+PROPERTIES NeverOverCachedFailure
 CHECK_DEADLOCK FALSE
